@@ -195,12 +195,43 @@ class Run:
             self.effect(s)
 
 
+_NAMES = None      # optional: declaration id -> canonical name (set through canonical_names())
+
+
+class canonical_names:
+    """with canonical_names(mapping): describe() prints mapped locals by their canonical name (alpha-renaming)"""
+
+    def __init__(self, mapping):
+        self.mapping = mapping
+
+    def __enter__(self):
+        global _NAMES
+        self.old = _NAMES
+        _NAMES = self.mapping
+
+    def __exit__(self, *a):
+        global _NAMES
+        _NAMES = self.old
+
+
+def local_canon(root):
+    """declaration id -> v1, v2, ... in order of declaration inside root"""
+    from .ir import walk as _walk
+    out = {}
+    for x in _walk(root):
+        if x["k"] == "VarDecl" and x.get("did") not in out:
+            out[x["did"]] = "v%d" % (len(out) + 1)
+    return out
+
+
 def describe(n, depth=0):
     """short printable form of an expression node"""
     if n is None:
         return "<null>"
     k = n["k"]
     if k == "DeclRefExpr":
+        if _NAMES is not None and n["ref"]["id"] in _NAMES:
+            return _NAMES[n["ref"]["id"]]
         return n["ref"]["name"]
     if k == "MemberExpr":
         b = kids(n)[0] if kids(n) else None
